@@ -17,6 +17,8 @@ Open Scope N_scope.
 Inductive gtype :=
 | GNonNull (t : gtype)
 | GList (t : gtype)
+| GEntities (names : list bytes) (t : gtype)
+  (* the _entities list: one item per representation, the i-th of the i-th representation's type *)
 | GScalar (name : bytes)               (* String Int Float Boolean ID, or a custom scalar *)
 | GEnum (values : list bytes)
 | GTypename
@@ -28,6 +30,7 @@ Definition s_Int : bytes := [73;110;116].
 Definition s_Float : bytes := [70;108;111;97;116].
 Definition s_Boolean : bytes := [66;111;111;108;101;97;110].
 Definition s_ID : bytes := [73;68].
+Definition s_typename : bytes := [95;95;116;121;112;101;110;97;109;101].
 
 (* JSON integer token: -?digits *)
 Definition int_token (r : bytes) : bool :=
@@ -56,6 +59,18 @@ Fixpoint conf_b (t : gtype) (j : json) {struct t} : bool :=
   match t with
   | GNonNull t' => match j with JNull => false | _ => conf_b t' j end
   | GList t' => match j with JNull => true | JArr items => forallb (conf_b t') items | _ => false end
+  | GEntities names t' =>
+    match j with
+    | JArr items =>
+      (fix go (ns : list bytes) (is : list json) {struct is} : bool :=
+         match ns, is with
+         | [], [] => true
+         | n :: ns', i :: is' =>
+           conf_b t' i && match jget s_typename i with Some (JStr s) => bytes_eqb s n | _ => false end && go ns' is'
+         | _, _ => false
+         end) names items
+    | _ => false
+    end
   | GScalar n => match j with JNull => true | _ => scalar_ok n j end
   | GEnum vs => match j with JNull => true | JStr s => mem_bytes s vs | _ => false end
   | GTypename => match j with JStr _ => true | _ => false end
@@ -116,6 +131,7 @@ Fixpoint project (t : gtype) (j : json) {struct t} : canon :=
   match t with
   | GNonNull t' => project t' j
   | GList t' => match j with JNull => CNull | JArr items => CList (map (project t') items) | _ => CBad end
+  | GEntities _ t' => match j with JNull => CNull | JArr items => CList (map (project t') items) | _ => CBad end
   | GScalar _ | GEnum _ | GTypename => match j with JNull => CNull | _ => CLeaf j end
   | GObj variants =>
     match j with
